@@ -7,11 +7,11 @@ R = "Engine R: the real generic varpro/nalgebra code is executed on a symbolic r
 K = "Engine K: Kani 0.68 / CBMC 6.11 proof harnesses compiled inside an overlay copy of the crate (private state reachable), bounded by #[kani::unwind], unwinding assertions on"
 M = "Engine M: symbolic execution of the nightly MIR of the listed functions (64-bit bit-vectors for usize, uninterpreted model calls with symbolic fault Booleans), all paths, decided by z3; paths and counterexamples replayed natively"
 N = "Engine N (supplementary, NOT solver-based): native runs of the real build on f64/f32 under a watchdog -- non-finite/extreme inputs, a model failure at every call index, all termination reasons, builder decision table on small sizes; adds detection power and replayable inputs, never the deciding step"
-REAL = "decided over the reals (IEEE rounding/overflow outside the claim); SVD for M>=2 replaced by a planted exact factorisation whose input matrix is proved equal to W*Phi; frames exact rational, shapes bounded (N<=4, M<=3, S<=3, P<=2 quick); trusted: rustc, nalgebra generic kernels, z3/cvc5, the Sym scalar (validated against native f64 runs each time)"
+REAL = "decided over the reals (IEEE rounding/overflow outside the claim); SVD for M>=2 replaced by a planted exact factorisation whose input matrix is proved equal to W*Phi; frames exact rational or rationally parametrised rotations with symbolic parameters (sizes <= 3), shapes bounded (N<=4, M<=3, S<=3, P<=2 quick); trusted: rustc, nalgebra generic kernels, z3/cvc5, the Sym scalar (validated against native f64 runs each time)"
 
 CHECKS = {
  "C01": dict(tech="symbolic execution of real code on a symbolic scalar + SMT (QF_NRA)", engines=[R],
-             text="For every explored shape/frame and EVERY value of singular values, weights, observations, threshold: the matrix handed to the SVD is W*Phi, the reported coefficients equal the truncated closed form V_r S_r^-1 U_r^T W Y, satisfy the normal equations on the full-rank path, are minimum-norm and optimal in the retained subspace on every truncated path (sigma <= eps counts as zero), depend linearly on Y, and every divisor is non-zero on every path. Bounded model checking: all paths of the real set_params/build inside the shape bound.",
+             text="For every explored shape/frame and EVERY value of singular values, weights, observations, threshold: the matrix handed to the SVD is W*Phi, the reported coefficients equal the truncated closed form V_r S_r^-1 U_r^T W Y, for EVERY set of retained singular values stated as an explicit premise (sigma_j > eps kept, sigma_j <= eps counts as zero; the specification never reads the implementation's rank decision), satisfy the normal equations in the full-rank case, are minimum-norm and optimal in the retained subspace in every truncated case; the SVD is called with a constant convergence tolerance <= 1e-9, depend linearly on Y, and every divisor is non-zero on every path. Bounded model checking: all paths of the real set_params/build inside the shape bound.",
              note=REAL),
  "C02": dict(tech="symbolic execution of real code on a symbolic scalar + SMT (QF_NRA)", engines=[R, K],
              text="residuals() == column-stacked W*Y - (W*Phi)*C, weighted_data() == W*Y, best_fit() == Phi*C in the shape of the observations, params()/nonlinear_parameters() == the alpha last applied, for all values inside the shape bound and after one- and two-step update histories.", note=REAL),
@@ -35,19 +35,19 @@ CHECKS = {
  "C10": dict(tech="symbolic execution of update histories + SMT; poisoning allocator", engines=[R, K],
              text="After two-step histories (incl. a rejected / failing update in between) every reported element is proved equal to the fresh problem's; repeated queries return identical terms; every element read back is a computed term (fresh heap memory is poisoned with 0xA5 so an un-overwritten element is an invalid term id).", note=REAL + "; heap quantifier: poison pattern instead of all heap contents"),
  "C12": dict(tech="symbolic execution of try_calculate + SMT; concrete shape grid for the guard", engines=[R, M],
-             text="weighted_residuals == W y - W Phi c, reduced_chi2*(N-M-P) == ||r||^2, standard error^2 == chi2 for all values; N<=M+P gives Err(Underdetermined) without panic in the overflow-checked profile; model errors give Err.", note=REAL + "; N,M,P on a concrete grid in this engine (symbolic 64-bit counts: Engine M once registered)"),
+             text="weighted_residuals == W y - W Phi c, reduced_chi2*(N-M-P) == ||r||^2, standard error^2 == chi2 for all values; N<=M+P gives Err(Underdetermined) without panic in the overflow-checked profile; model errors give Err.", note=REAL + "; N,M,P on a concrete grid in Engine R; Engine M decides the guard over symbolic 64-bit counts on both MIR dumps (overflow checks on and off)"),
  "C13": dict(tech="symbolic execution of try_calculate + SMT (fraction-free)", engines=[R, K],
              text="Cov*(H^T H) == sigma^2 I with H = W[Phi | D_k c] (ordering linear-then-nonlinear is implied), Cov symmetric, variance accessors == diagonal segments, corr_ij*sqrt(C_ii C_jj) == C_ij, for all values on the det != 0 path, (M+P) <= 4.", note=REAL + "; non-negativity of the diagonal and |corr| <= 1 are consequences not separately encoded"),
  "C14": dict(tech="symbolic execution of try_calculate + SMT", engines=[R, K],
-             text="unscaled band sigma_i^2 == j_i^T Cov j_i with j_i a row of the UN-weighted [Phi | D_k c] for all values.", note=REAL + "; the Student-t quantile itself (distrs) and the data flow t((1+p)/2, dof)*sigma_i are Engine K's part once registered"),
+             text="unscaled band sigma_i^2 == j_i^T Cov j_i with j_i a row of the UN-weighted [Phi | D_k c] for all values.", note=REAL + "; the data flow radius_i = t((1+p)/2, dof)*sigma_i is Engine K's part (quantile function stubbed by a recording oracle; all f64 p, all f32 p; p outside (0,1) panics); the Student-t quantile itself (distrs crate) is trusted"),
  "C15": dict(tech="real builder executed on symbolic scalars; EUF obligations for accepted models; bounded enumeration of call sequences for acceptance", engines=[R],
              text="REDUCED SCOPE: acceptance is decided by hash sets over concrete strings, which no available symbolic engine carries (measured). A reference predicate written from the property statement classifies builder call sequences; ~50 hand-written sequences (every error kind, sticky errors, any order of x/initial-guess) and a systematic enumeration (every sequence of 1..3 functions over ordered subsets of 2..3 model parameters plus single-defect mutants: 229 quick / 1281 thorough) are run through the real builder: accepted iff valid, error kind among the defects present; accepted models are then decided symbolically as in C16.", note="acceptance part is an enumeration, not a solver verdict; names/arity clauses outside the enumerated sequences are not decided"),
  "C16": dict(tech="symbolic execution with uninterpreted basis functions + SMT (EUF)", engines=[R, K],
              text="For every enumerated program (all ordered subsets up to arity 3 of up to 3 (quick) / 4 (thorough) model parameters, every derivative order, invariant functions at rotating positions; per arity 4..10: rotation, reversal, inner permutations with fixed endpoints, adjacent swaps, seeded random permutations, strict subsets with gaps of a larger list) and ALL parameter values and ALL basis functions: eval column j == f_j(x, params by name), derivative column == the supplied derivative or exactly 0, params round-trip.", note="programs enumerated (exhaustive within the stated bound), values and functions universally quantified; parametric in the scalar type"),
  "C17": dict(tech="symbolic execution with uninterpreted basis functions + SMT (EUF); facts per program", engines=[R, K],
-             text="Wrong output lengths (N-1, N+1, 0) at function / invariant / derivative positions give UnexpectedFunctionOutput{N, actual}; index >= P gives DerivativeIndexOutOfBounds; wrong parameter counts give IncorrectParameterCount and leave params and all evaluations (terms) unchanged; shapes N x M.", note="programs enumerated; values universally quantified"),
+             text="Wrong output lengths (N-1, N+1, 0) at function / invariant / derivative positions, a derivative index >= P and wrong parameter counts each give an Err (which variant/payload is noted, not demanded) and never a panic or a short/long matrix; a rejected set_params leaves params and all evaluations (terms) unchanged; accepted calls return N x M.", note="programs enumerated; values universally quantified"),
  "C18": dict(tech="symbolic execution of the real builder + SMT", engines=[R, M],
-             text="After build(): params() == the model's parameters, residuals/coefficients present and correct, stored threshold == |eps| (or machine epsilon), for every order and repetition of the builder calls and all four constructors, all values.", note=REAL + "; the accept/reject decision table over symbolic sizes is Engine M's part once registered"),
+             text="After build(): params() == the model's parameters, residuals/coefficients present and correct, stored threshold == |eps| (or machine epsilon), for every order and repetition of the builder calls and all four constructors, all values.", note=REAL + "; the accept/reject decision of build() over SYMBOLIC 64-bit sizes (observations present, rows, columns, x length, weights length) is Engine M's part: Ok exactly when no requirement is violated, an Err names a requirement that is violated (priority among several left open); each MIR path replayed natively"),
 }
 NA = {
  "C05": "convergence of the Levenberg-Marquardt/VarPro iteration to a minimiser is a limit statement about an iterative floating-point search over transcendental model families: out of reach of bit-blasting (iterations x float width) and of exact real arithmetic alike; its local ingredients are decided under C01/C03",
